@@ -86,9 +86,14 @@ def run_check(check, tier, registry):
         if engine != "twin" and n_entries:
             # shard compiled workers by composition; rotate with the seed
             ents = [str((seed * workers + k) % n_entries) for k in range(workers)]
-            if workers < n_entries <= 2 * workers and check != "C13":
-                # more catalogue entries than workers: every worker alternates between two, so
-                # that one batch executes every composition of the catalogue in this engine
+            if workers < n_entries <= 2 * workers and check != "C13" and \
+                    int(os.environ.get("VERIF_ENTRIES_PER_WORKER", "2" if tier == "thorough" else "1")) >= 2:
+                # more catalogue entries than workers: in the thorough tier (where the budget
+                # amortises the doubled JIT cost) every worker alternates between two, so that
+                # one batch executes every composition of the catalogue in this engine.  At the
+                # quick budget a worker is compile-bound already with one entry (measured: 150
+                # instead of 3 000 compiled grid runs with two); there the window of entries
+                # rotates with the seed and the twin phase covers the whole catalogue.
                 ents = [f"{(seed * workers + k) % n_entries}+{(seed * workers + k + workers) % n_entries}"
                         for k in range(workers)]
             cmd += ["--entries", ",".join(ents)]
@@ -276,7 +281,7 @@ def summarise(check, tier, seed, recs, harness_notes, workdir, t0, registry):
         print("HARNESS-NOTE:", n)
     if harness or harness_notes:
         return 2
-    if evaluations == 0 or inconcl_frac > 0.02 or len(distinct) < 2:
+    if evaluations == 0 or inconcl_frac > 0.10 or len(distinct) < 2:
         print(f"HARNESS-NOTE: inconclusive (evaluations={evaluations}, "
               f"inconclusive fraction={inconcl_frac:.3f})")
         return 2
